@@ -202,6 +202,8 @@ class C11(PropBase):
                 case["holders"] = [hb, hw]
                 case["lead"] = bool(lead)
             cases.append(case)
+        # (two member orders of one member set in one process is the union-order alias that C08/C12 record)
+        gen.one_order_per_member_set(world, [c["base"] for c in cases] + [c["wrapped"] for c in cases])
         # string references inside declarations are written from the defining module
         for m in world["modules"]:
             for d in m["decls"]:
